@@ -431,6 +431,15 @@ theorem mlm_replicate_order_matters :
     (MLM.run (MLM.init 3 1 .union) mlmWitness).store 2 0 = some 14 := by
   decide
 
+/-- non-vacuity of `mlm_same_clock_install_is_join`: in the recorded run leaders 0 and 2 end with the
+    same clock `[2,1,0]` and the values 12 and 14; installing leader 2's version at leader 0 (what an
+    anti-entropy request does) joins them -/
+example :
+    let s := MLM.run (MLM.init 3 1 .union) mlmWitness
+    (s.vers 0 0).map (·.vc) = some [2, 1, 0] ∧ (s.vers 2 0).map (·.vc) = some [2, 1, 0] ∧
+    (s.vers 2 0).map (fun inc => (MLM.install s 0 0 inc).1.store 0 0) = some (some 14) := by
+  decide
+
 /-- … and one anti-entropy request 2 → 0 followed by one 0 → 1 repairs it: all leaders on 14 -/
 example :
     let s := MLM.run (MLM.init 3 1 .union) (mlmWitness ++ [.ae 2 0, .rs 9, .dl 6, .rs 10, .ae 0 1, .rs 11, .dl 7, .rs 12])
